@@ -76,11 +76,13 @@ func (h *StreamHandler) Browse(req *BrowseRequest) *BrowseResponse {
 
 // requirePath validates that the request has a non-empty path within allowed paths,
 // and returns the cleaned path. If validation fails, it returns an error response.
-func (h *StreamHandler) requirePath(path string) (string, *BrowseResponse) {
+// followLast says whether the action follows a symbolic link at the final component
+// (list, chmod) or acts on the link itself (stat, delete).
+func (h *StreamHandler) requirePath(path string, followLast bool) (string, *BrowseResponse) {
 	if path == "" {
 		return "", &BrowseResponse{Error: "path is required"}
 	}
-	if err := h.validatePath(path); err != nil {
+	if err := h.validateResolvedPath(path, followLast); err != nil {
 		return "", &BrowseResponse{Error: err.Error()}
 	}
 	return filepath.Clean(path), nil
@@ -88,7 +90,7 @@ func (h *StreamHandler) requirePath(path string) (string, *BrowseResponse) {
 
 // browseList lists directory contents with pagination.
 func (h *StreamHandler) browseList(req *BrowseRequest) *BrowseResponse {
-	cleanPath, errResp := h.requirePath(req.Path)
+	cleanPath, errResp := h.requirePath(req.Path, true)
 	if errResp != nil {
 		return errResp
 	}
@@ -159,7 +161,7 @@ func (h *StreamHandler) browseList(req *BrowseRequest) *BrowseResponse {
 
 // browseStat returns info about a single path.
 func (h *StreamHandler) browseStat(req *BrowseRequest) *BrowseResponse {
-	cleanPath, errResp := h.requirePath(req.Path)
+	cleanPath, errResp := h.requirePath(req.Path, false)
 	if errResp != nil {
 		return errResp
 	}
@@ -177,7 +179,7 @@ func (h *StreamHandler) browseStat(req *BrowseRequest) *BrowseResponse {
 
 // browseChmod changes file permissions.
 func (h *StreamHandler) browseChmod(req *BrowseRequest) *BrowseResponse {
-	cleanPath, errResp := h.requirePath(req.Path)
+	cleanPath, errResp := h.requirePath(req.Path, true)
 	if errResp != nil {
 		return errResp
 	}
@@ -204,7 +206,7 @@ func (h *StreamHandler) browseChmod(req *BrowseRequest) *BrowseResponse {
 
 // browseDelete deletes a file or directory.
 func (h *StreamHandler) browseDelete(req *BrowseRequest) *BrowseResponse {
-	cleanPath, errResp := h.requirePath(req.Path)
+	cleanPath, errResp := h.requirePath(req.Path, false)
 	if errResp != nil {
 		return errResp
 	}
